@@ -179,6 +179,12 @@ def gen_read_op(rng, shape, sd):
         f = [a for a in range(1, s + 1) if s % a == 0] or [1]
         a = rng.choice(f)
         sizes = (a, s // a) if s else (0, 1)
+        if s and rng.random() < 0.4:
+            # three factors: the lazy unflatten nests one level per factor
+            rest = s // a
+            f2 = [c for c in range(1, rest + 1) if rest % c == 0]
+            c = rng.choice(f2)
+            sizes = (a, c, rest // c)
         return kind, [d, list(sizes)], lambda x: x.unflatten(d, sizes)
     if kind == "unbind":
         d = rand_dim(rng, r)
@@ -404,6 +410,8 @@ def state_diff(ms, D, sd):
     """members (the only storage of the lazy stack) against the dense twin after the same mutation"""
     try:
         S = torch.stack([m.clone() for m in ms], sd)
+    except TimeoutError:      # a slow box is an infrastructure problem (exit 2), never a verdict
+        raise
     except Exception as e:  # noqa: BLE001
         return f"members can no longer be stacked: {type(e).__name__}: {str(e)[:80]}"
     d = G.same_td(S, D)
@@ -436,6 +444,8 @@ def torch_expect_write(ms, sd, index, value, E=None):
         else:
             try:
                 src = G.get_leaf(value, k)
+            except TimeoutError:      # a slow box is an infrastructure problem (exit 2), never a verdict
+                raise
             except Exception:  # noqa: BLE001
                 continue
             if src is None:
@@ -485,6 +495,8 @@ def gen_mut_op(rng, shape, sd, bs, n):
         try:
             probe = torch.zeros(shape)[tuple(i for i in index)] if index else torch.zeros(shape)
             ibs = tuple(probe.shape)
+        except TimeoutError:      # a slow box is an infrastructure problem (exit 2), never a verdict
+            raise
         except Exception:  # noqa: BLE001
             ibs = None
         if ibs is None:
@@ -608,6 +620,8 @@ def mut_ops_stream(run, n_cases):
                         order = list(ms)
                         order.insert(pos, new)
                 sl = "ok"
+            except TimeoutError:      # a slow box is an infrastructure problem (exit 2), never a verdict
+                raise
             except Exception as e:  # noqa: BLE001
                 sl = "raise"
             run.count("mut.outcome", f"{name}:lazy-{sl}")
@@ -615,6 +629,8 @@ def mut_ops_stream(run, n_cases):
                 D2 = dense_of(order, sd)
                 try:
                     d = G.same_td(L, D2) or (None if list(L.tensordicts) == order or all(a is b for a, b in zip(L.tensordicts, order)) else "member list order")
+                except TimeoutError:      # a slow box is an infrastructure problem (exit 2), never a verdict
+                    raise
                 except Exception as e:  # noqa: BLE001
                     d = None
                     run.count("mut.outcome", f"{name}:read-after-raises")
@@ -647,6 +663,8 @@ def mut_ops_stream(run, n_cases):
                 # the stack itself must also read the new content
                 try:
                     d = G.same_td(L, D)
+                except TimeoutError:      # a slow box is an infrastructure problem (exit 2), never a verdict
+                    raise
                 except Exception:  # noqa: BLE001
                     d = None
             if d and hasattr(f, "write_index"):
@@ -656,6 +674,8 @@ def mut_ops_stream(run, n_cases):
                     if G.same_td(D, E) is not None:
                         run.count("mut.dense_not_torch(C03)", name)
                         d = None
+                except TimeoutError:      # a slow box is an infrastructure problem (exit 2), never a verdict
+                    raise
                 except Exception:  # noqa: BLE001
                     pass
             if d:
@@ -702,6 +722,8 @@ def member_write_stream(run, n_cases):
                     ms[i].update(value_for(rng, ()))
             else:
                 ms[i]["n", "c"] = ms[i]["n", "c"] + 0.5
+        except TimeoutError:      # a slow box is an infrastructure problem (exit 2), never a verdict
+            raise
         except Exception:  # noqa: BLE001
             run.oracle_ok("member_write_raises")
             continue
@@ -717,15 +739,21 @@ def member_write_stream(run, n_cases):
             if d is None:
                 try:
                     rl = L[index]
+                except TimeoutError:      # a slow box is an infrastructure problem (exit 2), never a verdict
+                    raise
                 except Exception:  # noqa: BLE001
                     rl = None
                 if rl is not None:
                     try:
                         rd = D[index]
+                    except TimeoutError:      # a slow box is an infrastructure problem (exit 2), never a verdict
+                        raise
                     except Exception:  # noqa: BLE001
                         rd = None
                     if rd is not None:
                         d = G.same_td(rl, rd)
+        except TimeoutError:      # a slow box is an infrastructure problem (exit 2), never a verdict
+            raise
         except Exception as e:  # noqa: BLE001
             run.count("member_write.read_raises", type(e).__name__)
         if d:
@@ -959,6 +987,8 @@ def source_alias_stream(run, n_cases):
             index = G.index_py(ix)
             try:
                 sbs = tuple(torch.zeros(shape)[index].shape) if index else tuple(shape)
+            except TimeoutError:      # a slow box is an infrastructure problem (exit 2), never a verdict
+                raise
             except Exception:  # noqa: BLE001
                 run.oracle_ok("source_alias_skipped")
                 continue
@@ -1041,6 +1071,8 @@ def source_alias_stream(run, n_cases):
             continue
         try:
             before = G.same_td(L, D) or state_diff(ms, D, sd)
+        except TimeoutError:      # a slow box is an infrastructure problem (exit 2), never a verdict
+            raise
         except Exception:  # noqa: BLE001
             before = "unreadable"
         if before:
@@ -1049,11 +1081,15 @@ def source_alias_stream(run, n_cases):
         try:
             poke(srcL)
             poke(srcD)
+        except TimeoutError:      # a slow box is an infrastructure problem (exit 2), never a verdict
+            raise
         except Exception:  # noqa: BLE001
             run.oracle_ok("source_alias_raises:" + op)
             continue
         try:
             d = G.same_td(L, D) or state_diff(L.tensordicts, D, sd)
+        except TimeoutError:      # a slow box is an infrastructure problem (exit 2), never a verdict
+            raise
         except Exception as e:  # noqa: BLE001
             d = None
             run.count("source_alias.read_raises", type(e).__name__)
@@ -1157,6 +1193,8 @@ def cat_stack_stream(run, n_cases):
             continue
         try:
             d = G.same_td(got, expect)
+        except TimeoutError:      # a slow box is an infrastructure problem (exit 2), never a verdict
+            raise
         except Exception:  # noqa: BLE001
             run.oracle_ok("cat_stack_unreadable")
             continue
@@ -1238,11 +1276,15 @@ def stack_of_stacks_stream(run, n_cases):
                     d = G.same_td(S, D)
                     if d:
                         d = "stack(stack(leaf members)) vs dense: " + d
+                except TimeoutError:      # a slow box is an infrastructure problem (exit 2), never a verdict
+                    raise
                 except Exception as e:  # noqa: BLE001
                     d = f"leaf members can no longer be stacked: {type(e).__name__}"
                 if d is None:
                     try:
                         d = G.same_td(L, D)    # ... and the stack of stacks reads it
+                    except TimeoutError:      # a slow box is an infrastructure problem (exit 2), never a verdict
+                        raise
                     except Exception:  # noqa: BLE001
                         d = None
                 if d and hasattr(f, "write_index"):
@@ -1252,6 +1294,8 @@ def stack_of_stacks_stream(run, n_cases):
                         if G.same_td(D, E) is not None:
                             run.count("stack_of_stacks.dense_not_torch(C03)", name)
                             d = None
+                    except TimeoutError:      # a slow box is an infrastructure problem (exit 2), never a verdict
+                        raise
                     except Exception:  # noqa: BLE001
                         pass
                 if d:
@@ -1275,6 +1319,8 @@ def stack_of_stacks_stream(run, n_cases):
             case["ix"] = ix
             try:
                 ibs = tuple(torch.zeros(shape)[index].shape) if index else tuple(shape)
+            except TimeoutError:      # a slow box is an infrastructure problem (exit 2), never a verdict
+                raise
             except Exception:  # noqa: BLE001
                 run.oracle_ok("stack_of_stacks:bad-index")
                 continue
@@ -1293,11 +1339,15 @@ def stack_of_stacks_stream(run, n_cases):
                 try:
                     S = torch.stack([dense_of(ms, sd_in) for ms in inner_ms], sd_out)   # the leaf members hold the data
                     d = G.same_td(S, D)
+                except TimeoutError:      # a slow box is an infrastructure problem (exit 2), never a verdict
+                    raise
                 except Exception as e:  # noqa: BLE001
                     d = f"members can no longer be stacked: {type(e).__name__}"
                 if d:
                     try:
                         E = torch_expect_write([m for ms in inner_ms for m in ms], 0, index, v) if False else None
+                    except TimeoutError:      # a slow box is an infrastructure problem (exit 2), never a verdict
+                        raise
                     except Exception:  # noqa: BLE001
                         E = None
                     run.oracle_fail("stack_of_stacks", case, f"after a write through the stack of stacks: {d}", "sos:write")
